@@ -20,9 +20,8 @@ def target_dir(ctx):
     return os.path.join(common.WORK, "target-gendrv-%s" % ctx.tier)
 
 
-def emit(ctx, exclude=(), reduced=()):
-    binary = common.cargo_build("layoutmon", "fastdebug")
-    d = crate_dir(ctx)
+def emit_with(profile, d, ctx, exclude, reduced):
+    binary = common.cargo_build("layoutmon", profile)
     count = 8 if ctx.quick else 48
     caps = "0,5" if ctx.quick else "0,1,8"
     cmd = [binary, "emit", "--seed", str(ctx.seed), "--count", str(count), "--out-dir", d, "--caps", caps]
@@ -30,11 +29,56 @@ def emit(ctx, exclude=(), reduced=()):
         cmd += ["--exclude", ",".join(sorted(exclude))]
     if reduced:
         cmd += ["--reduced", ",".join(sorted(reduced))]
-    with common.Lock("gendrv-emit"):
-        rc, out, err = common.sh(cmd, timeout=600)
+    rc, out, err = common.sh(cmd, timeout=600)
     if rc != 0:
-        raise Inconclusive("emitter failed: %s" % (err or "")[-500:])
-    return d, json.load(open(os.path.join(d, "manifest.json")))
+        raise Inconclusive("emitter (%s build) failed: %s" % (profile, (err or "")[-500:]))
+    return json.load(open(os.path.join(d, "manifest.json")))
+
+
+def emit(ctx, exclude=(), reduced=()):
+    """Emits the generated-driver crate. The generator runs twice: built with debug assertions
+    and overflow checks (the crate), and built the way a release build builds a build script's
+    dependencies (a sibling directory). Where the release-built generator writes a different
+    text for a module, that text (and its driver) replaces the other one, so that it is the
+    one compiled and executed; on a tree where both agree this changes nothing."""
+    d = crate_dir(ctx)
+    d2 = d + "-relgen"
+    with common.Lock("gendrv-emit"):
+        manifest = emit_with("fastdebug", d, ctx, exclude, reduced)
+        manifest2 = emit_with("release", d2, ctx, exclude, reduced)
+        status = {m["module"]: m["status"] for m in manifest["modules"]}
+        same = differ = 0
+        for m in manifest2["modules"]:
+            name = m["module"]
+            if m["status"] != "emitted":
+                if status.get(name) == "emitted":
+                    m2 = dict(m)
+                    m2["status"] = "release-built generator: " + m["status"]
+                    if not any(g["module"] == name and g["status"] == m2["status"] for g in ctx.gen_failures):
+                        ctx.gen_failures.append(m2)
+                continue
+            if status.get(name) != "emitted":
+                continue
+            changed = False
+            for f in ("m%s.rs", "d%s.rs"):
+                a = os.path.join(d, "src", f % name[1:])
+                b = os.path.join(d2, "src", f % name[1:])
+                if not os.path.exists(b):
+                    continue
+                tb = open(b).read()
+                if not os.path.exists(a) or open(a).read() != tb:
+                    with open(a, "w") as fh:
+                        fh.write(tb)
+                    changed = True
+            if changed:
+                differ += 1
+            else:
+                same += 1
+        ctx.counters["modules_with_identical_text_from_the_release_built_generator"] = same
+        if differ:
+            ctx.counters["modules_taken_from_the_release_built_generator_because_its_text_differs"] = differ
+        shutil.rmtree(d2, ignore_errors=True)
+    return d, manifest
 
 
 def failing_modules(stderr):
